@@ -101,17 +101,32 @@ func (c *Config) Proxy(closing chan bool, cc io.ReadWriter, url *url.URL) error 
 	}
 	sToC.processors = cToS.processors
 
+	// stop is closed when the proxy shuts down or as soon as either direction ends, so that the end
+	// of one direction (a peer closing, a failed write, a protocol error) also ends the other one.
+	stop := make(chan bool)
+	var stopOnce sync.Once
+	finish := func() { stopOnce.Do(func() { close(stop) }) }
+	go func() {
+		select {
+		case <-closing:
+			finish()
+		case <-stop:
+		}
+	}()
+
 	var wg sync.WaitGroup
 	wg.Add(2)
 	go func() { // Forwards frames from client to server.
 		defer wg.Done()
-		if err := cToS.relayFrames(closing); err != nil {
+		defer finish()
+		if err := cToS.relayFrames(stop); err != nil {
 			log.Errorf("relaying frame from client to %v: %v", url, err)
 		}
 	}()
 	go func() { // Forwards frames from server to client.
 		defer wg.Done()
-		if err := sToC.relayFrames(closing); err != nil {
+		defer finish()
+		if err := sToC.relayFrames(stop); err != nil {
 			log.Errorf("relaying frame from %v to client: %v", url, err)
 		}
 	}()
